@@ -115,12 +115,14 @@ def check(run):
     rng = run.rng
     nrand = 120 if run.tier == "quick" else 4000
     cases = [WITNESS, SELFROUTE] + [gen_case(rng) for _ in range(nrand)] + [gen_case(rng, fanout=True) for _ in range(nrand // 10)]
-    answers = X.run_direct(binpath, cases)
-    try:
-        models = X.run_model("C26", cases)
-    except RuntimeError as ex:
-        run.tie_broken("model evaluation (coqc)", str(ex))
-        models = None
+    with X.Phase(run, "implementation runs (poll by poll)"):
+        answers = X.run_direct(binpath, cases)
+    with X.Phase(run, "model runs (vm_compute)"):
+        try:
+            models = X.run_model("C26", cases)
+        except RuntimeError as ex:
+            run.tie_broken("model evaluation (coqc)", str(ex))
+            models = None
     refs = X.run_ref(binpath, [(c["prog"], accepted_inputs(c, a) if "steps" in a else []) for c, a in zip(cases, answers)])
     nfail = 0
     ntie = 0
@@ -174,7 +176,8 @@ def check(run):
         expect = sum(len(p) for p in r["out"])
         reqs.append({"mode": "orch", "vpl": X.vpl(c["prog"]), "cap": c["cap"], "events": [list(e) for e in c["events"]],
                      "expect": expect, "timeout_ms": 15000, "grace_ms": 150})
-    oans = harness.run_jsonl(binpath, reqs, timeout=2400)
+    with X.Phase(run, "threaded orchestrator runs"):
+        oans = harness.run_jsonl(binpath, reqs, timeout=2400)
     for c, r, a in zip(ocs, orefs, oans):
         run.count("kind:threaded")
         run.count("cap:%d" % c["cap"])
